@@ -92,6 +92,7 @@ def main(prop, meta):
     ap.add_argument("--only", default=None, help="run only units whose name contains this")
     ap.add_argument("--no-native", action="store_true")
     ap.add_argument("--evidence", default=None)
+    ap.add_argument("--write-baseline", action="store_true", help="record the ids of the obligations discharged on this (unchanged) tree under baseline/<Cxx>.json")
     a = ap.parse_args()
     tier = a.tier if a.tier in ("quick", "thorough") else "quick"
     seed = int(os.environ.get("VERIF_SEED", "0") or 0)
@@ -172,6 +173,9 @@ def main(prop, meta):
         json.dump(payload, open(path, "w"), indent=1, default=str)
         return path
 
+    bp = os.path.join(VERIF, "baseline", prop + ".json")
+    baseline = json.load(open(bp)) if os.path.exists(bp) else {}
+    baseline_proved = set(baseline.get("discharged", []))
     native_fail_by_obl = {}
     if native:
         for f in native.get("failures", []):
@@ -196,6 +200,13 @@ def main(prop, meta):
             continue  # already reported through the native failure (with a real input)
         if r["status"] == "refuted":
             path = write_replay(r["id"], {"property": prop, "obligation": r["id"], "kind": "solver-countermodel", "solver": r["solver"], "model": r.get("model"), "smt2": r.get("smt2", "")[:100000], "note": "no native failing input was found by the small-scope search for this obligation"})
+            violations.append((r["id"], path, " no-failing-input-found"))
+        elif r["id"] in baseline_proved:
+            # discharged on the unchanged tree (committed baseline), not discharged now, and the solvers give neither proof nor model: reported as a
+            # violation of that obligation without a failing input; the replay file carries the solvers' answer
+            path = write_replay(r["id"], {"property": prop, "obligation": r["id"], "kind": "obligation-no-longer-discharged", "solver": r["solver"], "solver_answer": "unknown (no proof, no counter-model) after %d ms" % r["ms"],
+                                           "cvc5": r.get("cvc5"), "smt2": r.get("smt2", "")[:100000], "baseline": baseline.get("repo_commit"),
+                                           "note": "this obligation is discharged on the tree the baseline was recorded on; no failing input was found by the native small-scope search"})
             violations.append((r["id"], path, " no-failing-input-found"))
         else:
             undecided.append(r)
@@ -297,6 +308,13 @@ def main(prop, meta):
         cov["explanation"] = cov.get("explanation", meta.get("explanation", "")) + (f" {n_obl_claim - n_proved_claim} obligation(s) not discharged on this run (undecided or violations): this run is not a complete proof." if n_proved_claim != n_obl_claim else "")
     ev = {"property_id": prop, "tier": tier, "seed": seed, "level": level if n_proved_claim == n_obl_claim else "other", "coverage": cov,
           "assumptions": meta.get("assumptions", []), "wall_s": round(wall, 2), "violations": len(violations)}
+    if a.write_baseline:
+        if code != 0:
+            print("CHECKER-ERROR baseline not written: the run did not end with exit 0")
+        else:
+            os.makedirs(os.path.join(VERIF, "baseline"), exist_ok=True)
+            head = subprocess.run(["git", "-C", a.root, "rev-parse", "--short", "HEAD"], capture_output=True, text=True).stdout.strip()
+            json.dump({"property": prop, "repo_commit": head, "discharged": sorted(r["id"] for r in obligations if r["status"] == "proved")}, open(bp, "w"), indent=0)
     evp = a.evidence or os.path.join(VERIF, "evidence", prop + ".json")
     os.makedirs(os.path.dirname(evp), exist_ok=True)
     json.dump(ev, open(evp, "w"), indent=1, default=str)
